@@ -170,7 +170,11 @@ def gen_src():
         out = ""
         for cf in sorted(x for x in os.listdir(BUILD) if x.startswith("gen_src_consts") and x.endswith(".c")):
             exe = cf[:-2].replace(".", "_")
-            ok, log = cc(exe, [os.path.join(BUILD, cf)], ["-w"])
+            # the program only prints constants: symbols of other library objects its included .c file refers to stay unresolved
+            # the programs only print constants; the one in the hash table's context is linked with the other objects
+            # rculfhash.c refers to (the functions stay uncalled)
+            extra = (LFHT_SRCS + rsrc("urcu.c") if "rculfhash" in cf else [])
+            ok, log = cc(exe, [os.path.join(BUILD, cf)] + extra, ["-w"] + (["-DRCU_MEMBARRIER"] if extra else []))
             if not ok:
                 return False, "constants / zero-offset assertions of gen_src (%s) do not compile against /repo:\n" % cf + log, {}
             rc, o1, err2 = sh2([os.path.join(BUILD, exe)], timeout=60)
